@@ -18,7 +18,8 @@ var _ = bufio.NewReader
 var _ = io.EOF
 
 // ioFailed: some I/O call of this function call failed for a reason other than end of file
-func ioFailed() bool { return false }
+func ioFailed() bool  { return false }
+func envFailed() bool { return false } // same flag: I/O error or refused allocation
 
 func fileSize(f *os.File) int {
 	st, err := f.Stat()
